@@ -13,6 +13,7 @@
 //   I <inst_id> <n> (<sig> <id> <d0> <d1>)*n     _emit with operands 0..n-1 (others none)
 //   B <l> | A <mode> <n> | E <hex> | EA <type> <count> <repeat> <hex> | EL <l> <size> | ED <l> <base> <size>
 //   CP <l> <align> <itemsize> <hex> | CM <hex> | S <section id>
+//   NC <scope> <hex8> | JA <labels..> | IJ <inst> <annotation> <op> | IV <inst> 0 <op>     Compiler: _new_const / jump annotation / annotated jump / invoke
 //   FN | FR | FE                                 Compiler: add_func(void()) / ret() / end_func(); reference: labels + emit_prolog/emit_epilog(frame)
 //   SN <type>                                    Builder/Compiler: new_node_t<SentinelNode> + add_node; Assembler: nothing
 //   CPN <align> <itemsize> <hex>                 Builder/Compiler: new_const_pool_node + add + add_node; Assembler: new_label + embed_const_pool
@@ -178,7 +179,21 @@ struct Env {
   const std::vector<FuncFrame>* frames = nullptr;
   size_t func_index = 0;
   std::vector<Label> exit_labels;
+  // Compiler constant pools (_new_const): reference side = a label per scope (created on first use) + the pool contents
+  struct RefPool { bool used = false; Label label; std::vector<uint8_t> data; };
+  RefPool ref_pool[2];
+  std::vector<JumpAnnotation*> annotations;
 };
+
+static uint32_t flush_ref_pool(BaseEmitter* e, Env& env, int scope) {
+  Env::RefPool& rp = env.ref_pool[scope];
+  if (!rp.used) return 0;
+  env.pool_arena.reset();
+  ConstPool pool(env.pool_arena);
+  for (size_t i = 0; i + 8 <= rp.data.size(); i += 8) { size_t off; (void)pool.add(rp.data.data() + i, 8, Out(off)); }
+  rp.used = false; rp.data.clear();
+  return uint32_t(e->embed_const_pool(rp.label, pool));
+}
 
 static uint32_t apply(BaseEmitter* e, Env& env, const Cmd& c) {
   const std::string& k = c.k;
@@ -218,7 +233,7 @@ static uint32_t apply(BaseEmitter* e, Env& env, const Cmd& c) {
     size_t item = size_t(num(a[2]));
     env.pool_arena.reset();
     ConstPool pool(env.pool_arena);
-    for (size_t i = 0; i + item <= b.size(); i += item) { size_t off; (void)pool.add(b.data() + i, item, Out(off)); }
+    for (size_t i = 0; item && i + item <= b.size(); i += item) { size_t off; (void)pool.add(b.data() + i, item, Out(off)); }
     std::vector<uint8_t> filled(pool.size() + 1);
     pool.fill(filled.data());
     if (pool.size() != b.size() || pool.alignment() != num(a[1]) || memcmp(filled.data(), b.data(), b.size()) != 0) env.guard_failed = true;
@@ -232,7 +247,7 @@ static uint32_t apply(BaseEmitter* e, Env& env, const Cmd& c) {
       ConstPoolNode* node = nullptr;
       Error err = bb->new_const_pool_node(Out(node));
       if (err != Error::kOk) return uint32_t(err);
-      for (size_t i = 0; i + item <= b.size(); i += item) { size_t off; (void)node->add(b.data() + i, item, Out(off)); }
+      for (size_t i = 0; item && i + item <= b.size(); i += item) { size_t off; (void)node->add(b.data() + i, item, Out(off)); }
       if (node->size() != b.size() || node->alignment() != num(a[0])) env.guard_failed = true;
       bb->add_node(node);
       return 0;
@@ -240,8 +255,45 @@ static uint32_t apply(BaseEmitter* e, Env& env, const Cmd& c) {
     Label l = e->new_label();
     env.pool_arena.reset();
     ConstPool pool(env.pool_arena);
-    for (size_t i = 0; i + item <= b.size(); i += item) { size_t off; (void)pool.add(b.data() + i, item, Out(off)); }
+    for (size_t i = 0; item && i + item <= b.size(); i += item) { size_t off; (void)pool.add(b.data() + i, item, Out(off)); }
     return uint32_t(e->embed_const_pool(l, pool));
+  }
+  if (k == "NC") {
+    // NC <scope 0=local 1=global> <hex of one 8-byte constant>: BaseCompiler::_new_const.  Reference: the pool label is created on the first
+    // use of the scope; the local pool is embedded by end_func after the epilog, the global one at the very end (GlobalConstPoolPass).
+    int scope = int(num(a[0])); std::vector<uint8_t> b = unhex(a[1]);
+    if (e->is_compiler()) { BaseMem m; return uint32_t(static_cast<BaseCompiler*>(e)->_new_const(Out(m), ConstPoolScope(scope), b.data(), b.size())); }
+    if (e->is_builder()) return 9994;
+    Env::RefPool& rp = env.ref_pool[scope];
+    if (!rp.used) { rp.used = true; rp.label = e->new_label(); }
+    bool dup = false;
+    for (size_t i = 0; i + 8 <= rp.data.size(); i += 8) if (!memcmp(rp.data.data() + i, b.data(), 8)) dup = true;
+    if (!dup) rp.data.insert(rp.data.end(), b.begin(), b.end());
+    return 0;
+  }
+  if (k == "JA") {
+    // JA <label ids...>: new_jump_annotation + add_label_id (Compiler only; no counterpart in the Assembler)
+    if (e->is_compiler()) {
+      JumpAnnotation* ja = static_cast<BaseCompiler*>(e)->new_jump_annotation();
+      if (!ja) return 1;
+      for (const std::string& t : a) (void)ja->add_label_id(uint32_t(num(t)));
+      env.annotations.push_back(ja);
+    }
+    return 0;
+  }
+  if (k == "IJ" || k == "IV") {
+    // IJ <inst> <annotation index> <op words>: emit_annotated_jump; IV <inst> 0 <op words>: add_invoke_node(inst, target, void()).
+    // Reference: the plain instruction with the pending one-shot state.
+    Operand_ op = mkop(a, 2);
+    if (e->is_compiler()) {
+      BaseCompiler* cc = static_cast<BaseCompiler*>(e);
+      if (k == "IJ") { size_t ai = size_t(num(a[1])); return uint32_t(cc->emit_annotated_jump(InstId(uint32_t(num(a[0]))), op, ai < env.annotations.size() ? env.annotations[ai] : nullptr)); }
+      InvokeNode* iv = nullptr;
+      return uint32_t(cc->add_invoke_node(Out(iv), InstId(uint32_t(num(a[0]))), op, FuncSignature::build<void>()));
+    }
+    if (e->is_builder()) return 9994;
+    Operand_ none[3]; none[0].reset(); none[1].reset(); none[2].reset();
+    return uint32_t(e->_emit(InstId(uint32_t(num(a[0]))), op, none[0], none[1], none));
   }
   if (k == "FN" || k == "FR" || k == "FE") {
     // FN = add_func(void()), FR = ret(), FE = end_func(): Compiler only.  Reference (Assembler): the exit label and the function label are
@@ -269,7 +321,9 @@ static uint32_t apply(BaseEmitter* e, Env& env, const Cmd& c) {
     uint32_t err = uint32_t(e->bind(env.exit_labels.back()));
     env.exit_labels.pop_back();
     if (err) return err;
-    return uint32_t(e->emit_epilog((*env.frames)[env.func_index++]));
+    err = uint32_t(e->emit_epilog((*env.frames)[env.func_index++]));
+    if (err) return err;
+    return flush_ref_pool(e, env, 0);
   }
   if (k == "SN") {
     // a SentinelNode: informative, serialize_to emits nothing for it; the Assembler has no counterpart call
@@ -375,6 +429,7 @@ static void run_reference(const Program& p, int which_base, bool use_ref, const 
     errs.push_back(e);
     if (e != 0 && stop_at_error) break;
   }
+  if (frames) { uint32_t e = flush_ref_pool(&a, env, 1); if (e) errs.push_back(e); }     // GlobalConstPoolPass
   img = image(env.code, p.base[which_base]);
   guard = guard || env.guard_failed;
 }
@@ -386,7 +441,8 @@ static void run_builder(const Program& p, int which_base, bool verbose, const ch
   env.code.init(Environment(arch_of(p.arch)));
   env.sections.push_back(env.code.text_section());
   BuilderT b(&env.code);
-  if (p.flags & 4) b.add_diagnostic_options(DiagnosticOptions::kValidateIntermediate);
+  // strict validation at record time AND in the Assembler finalize() serializes into (finalize() forwards the diagnostic options)
+  if (p.flags & 4) b.add_diagnostic_options(DiagnosticOptions::kValidateIntermediate | DiagnosticOptions::kValidateAssembler);
   BuilderCtx bc; bc.b = &b;
   char buf[128];
   bool corrupt = false;
@@ -528,6 +584,7 @@ static void catalog_x86(int arch) {
   cb.jnc(L); F("jnc_l", D_SHORTLONG | D_TAKEN | D_LABELREF, 0);
   cb.call(L); F("call_l", D_LABELREF, 0);
   cb.jmp(a); F("jmp_r", 0, 0);
+  cb.call(b); F("call_r", 0, 0);
   cb.mov(eax, dword_ptr(L)); F("mov_r_ml", D_LABELREF, 0);
   cb.lea(a, ptr(L, 4)); F("lea_ml", D_LABELREF, 0);
   cb.movs(byte_ptr(di), byte_ptr(si)); F("movsb", D_REP, 0);
@@ -598,10 +655,20 @@ static void catalog_a64() {
   cb.adr(x4, L); F("adr_l", D_LABELREF, 0);
   cb.ldr(x5, ptr(L)); F("ldr_lit", D_LABELREF, 0);
   cb.br(x6); F("br", 0, 0);
+  cb.blr(x7); F("blr", 0, 0);
   cb.fadd(v0.s4(), v1.s4(), v2.s4()); F("fadd_v", 0, 0);
   cb.fmla(v3.s4(), v4.s4(), v5.s(1)); F("fmla_elem", 0, 0);
   cb.ld1(v6.b16(), ptr(x7)); F("ld1", 0, 0);
   cb.eor(x8, x9, imm(0xff00)); F("eor_imm", 0, 0);
+  // operand counts 3..6 of ONE mnemonic whose encoding inspects the extended operands (register lists)
+  cb.tbl(v0.b16(), v1.b16(), v2.b16()); F("tbl3", 0, 0);
+  cb.tbl(v6.b16(), v7.b16(), v8.b16(), v9.b16()); F("tbl4", 0, 0);
+  cb.tbl(v10.b16(), v11.b16(), v12.b16(), v13.b16(), v14.b16()); F("tbl5", 0, 0);
+  cb.tbl(v15.b16(), v16.b16(), v17.b16(), v18.b16(), v19.b16(), v20.b16()); F("tbl6", 0, 0);
+  cb.ld2(v0.b16(), v1.b16(), ptr(x0)); F("ld2", 0, 0);
+  cb.ld3(v4.b16(), v5.b16(), v6.b16(), ptr(x1)); F("ld3", 0, 0);
+  cb.ld4(v0.b16(), v1.b16(), v2.b16(), v3.b16(), ptr(x2)); F("ld4", 0, 0);
+  cb.casp(x2, x3, x4, x5, ptr(x6)); F("casp5", 0, 0);
   print_forms_from(cb, 2, meta);
 }
 
